@@ -9,7 +9,7 @@ SPEC = vlib.os.path.join(vlib.VERIF, "specs", "Relay")
 URGENT = {"RecvLoopEnd", "DlTimeout", "Cleanup", "UpClosed", "PackRes", "InitFail", "DlRead"}
 
 BASE = dict(Sess='{"s1"}', Targets='{"a","ip","rej"}', Domains='{"a"}', Rejected='{"rej"}', Unresolvable='{}', ChanCap=2, MaxSend=2, MaxReply=1, MaxTimer=0,
-            SharedPacker="FALSE", RearmGuard="TRUE", Keyed='"addr"', Batch="FALSE", GarbageOn="FALSE", UpBatch="FALSE", EMIT="", PROPS="")
+            SharedPacker="FALSE", RearmGuard="TRUE", Keyed='"addr"', Batch="FALSE", GarbageOn="FALSE", UpBatch="FALSE", MaxFault=0, EMIT="", PROPS="")
 
 
 def model(consts, props=True, edges=False, timeout=1800, workers=16):
@@ -20,12 +20,15 @@ def model(consts, props=True, edges=False, timeout=1800, workers=16):
     return vlib.tlc(SPEC, "MCUdpRelay", "MCUdpRelay.cfg", c, workers=workers, timeout=timeout, edges=edges), c
 
 
-def urgent_filter(graph, drop=()):
-    """Keep, in every state with an urgent action enabled, only the urgent edges; drop edges named in `drop`."""
+def urgent_filter(graph, drop=(), also=None):
+    """Keep, in every state with an urgent action enabled, only the urgent edges; drop edges named in `drop`.
+    `also`: predicate on an action that makes it urgent in this graph (e.g. the outcome of a session's initialisation
+    when the client's NewSession depends on the live context: it is decided right after the packet arrived)."""
     succ = collections.defaultdict(list)
     for n, eis in graph.succ.items():
         eis = [ei for ei in eis if graph.edges[ei][1]["n"] not in drop]
-        urg = [ei for ei in eis if graph.edges[ei][1]["n"] in URGENT]
+        # (a socket fault is injected by the harness, so InitFail at "socket" is a choice, not something that happens by itself)
+        urg = [ei for ei in eis if (graph.edges[ei][1]["n"] in URGENT and graph.edges[ei][1].get("at") != "socket") or (also and also(graph.edges[ei][1]))]
         succ[n] = urg if urg else eis
     graph.succ = succ
     return graph
